@@ -337,7 +337,8 @@ class Check:
         with open(tmp, "w") as f:
             json.dump(ev, f, indent=1, default=str)
         os.replace(tmp, evp)
-        shutil.rmtree(self.tmp, ignore_errors=True)
+        if not os.environ.get("VERIF_KEEP_TMP"):
+            shutil.rmtree(self.tmp, ignore_errors=True)
 
         for kid, (k, c) in known_hit.items():
             print("KNOWN-FINDING: property=%s %s [key=%s, seen %d×]" % (self.prop, k.get("what", ""), kid, c))
